@@ -1,5 +1,6 @@
 """C11 - a crash loses no acknowledged message and leaves a parseable log."""
 
+import io
 import json
 
 from engine.core import run, enumerate_prefixes
@@ -54,6 +55,40 @@ class CrashFile(object):
         self.events.append(("flush",))
 
 
+class _Raw(io.RawIOBase):
+    """The OS-level file under a real io.BufferedWriter: what reaches it survives a crash."""
+
+    def __init__(self, events):
+        io.RawIOBase.__init__(self)
+        self.events = events
+
+    def writable(self):
+        return True
+
+    def write(self, data):
+        data = bytes(data)
+        if data:
+            self.events.append(("write", data))
+            self.events.append(("flush",))
+        return len(data)
+
+
+class _TextThrough(io.TextIOWrapper):
+    """A real text stream opened with write_through=True over a real BufferedWriter: text written
+    to it is handed to the binary buffer at once, but reaches the file only when that buffer is
+    flushed (or fills up)."""
+
+    def __init__(self, events):
+        self.events = events
+        io.TextIOWrapper.__init__(self, io.BufferedWriter(_Raw(events), buffer_size=1 << 16), encoding="utf-8", write_through=True)
+
+    def write(self, text):
+        n = io.TextIOWrapper.write(self, text)
+        if text:
+            self.events.append(("call",))
+        return n
+
+
 class AckInterp(I.Interp):
     check_context = False
     file = None
@@ -68,6 +103,8 @@ class AckInterp(I.Interp):
 def body_E1(ctx):
     sh = ctx.shard
     f = CrashFile()
+    if sh.get("stream") == "text-write-through":
+        f = _TextThrough(f.events)
     Logger._destinations.add(FileDestination(file=f))
     it = AckInterp(ctx, sh.get("N", 4), sh.get("D", 3))
     it.file = f
@@ -94,9 +131,12 @@ def body_E1(ctx):
     durable = b""
     acked = 0  # number of messages whose logging call had returned
     n_written = 0
+    n_calls = 0
     pending = None
     for e in happened:
-        if e[0] == "write":
+        if e[0] == "call":
+            n_calls += 1  # a line was handed to a buffering stream object (text variant)
+        elif e[0] == "write":
             if pending is not None:
                 durable += pending  # a later write implies the earlier bytes reached the file object in order
             pending = e[1]
@@ -106,7 +146,7 @@ def body_E1(ctx):
                 durable += pending
                 pending = None
         else:
-            acked = n_written
+            acked = max(n_written, n_calls)
     cut = "n/a"
     if pending is not None:
         k = ctx.choose(3, "cut of the write in flight")
@@ -243,7 +283,7 @@ def E2() -> bool:
 
 def _shards(tier):
     N, D = (4, 3) if tier == "quick" else (5, 3)
-    profiles = [{}, {"open": 1}, {"open": 3}, {"msg": 4}, {"exc": 2}, {"fin": 1}, {"empty_type": 1}, {"under_remote": 1, "open": 5}, {"under_remote": 1}]
+    profiles = [{}, {"open": 1}, {"open": 3}, {"msg": 4}, {"exc": 2}, {"fin": 1}, {"empty_type": 1}, {"under_remote": 1, "open": 5}, {"under_remote": 1}, {"stream": "text-write-through"}]
     out = []
     for p in profiles:
         base = dict(p, N=N if not p else max(2, N - 1), D=D)
@@ -277,7 +317,7 @@ OBLIGATIONS = [
         shards=_shards,
         twin=[{"N": 3, "D": 3, "twin_label": "mid-write-nested"}],
         timeout={"quick": 100, "thorough": 1200},
-        bounds={"quick": "programs <= 4 ops (baseline) / <= 3 ops (8 other style profiles, incl. the default empty action type and a worker whose whole program runs inside a task continued from another process, with start_action or start_task), depth <= 3; every crash instant; cut classes {nothing, strictly inside, whole}", "thorough": "programs <= 5 / <= 4 ops"},
+        bounds={"quick": "programs <= 4 ops (baseline) / <= 3 ops (9 other style profiles, incl. a real write_through text stream over a real BufferedWriter, the default empty action type and a worker whose whole program runs inside a task continued from another process, with start_action or start_task), depth <= 3; every crash instant; cut classes {nothing, strictly inside, whole}", "thorough": "programs <= 5 / <= 4 ops"},
     ),
 ]
 OBLIGATIONS += OBLIGATIONS_TAIL
